@@ -16,6 +16,7 @@ class GenOpts:
         self.ctx_weight = 3
         self.tee_weight = 2
         self.no_streaming_mutation = False  # oracle works on snapshots: no streaming scan that mutates its accumulator
+        self.scale = False              # draw sizes beyond CPython's small-int cache / typical block sizes (257+, 1000+)
         self.only_ops = None            # restrict the vocabulary (set of op names)
         self.exclude_ops = ()
         self.__dict__.update(kw)
@@ -132,7 +133,7 @@ def candidates(rng, t, opts, st, depth):
         if not no_completion:
             A((1, ['scan', 'acc_append_new', 'list', rng.random() < 0.5, 'term_mark']))
         A((2, ['count', red()]))
-        A((2, ['take', rng.choice([0, 1, 1, 2, 3, 5])]))
+        A((2, ['take', rng.choice([0, 1, 1, 2, 3, 5]) if not opts.scale else rng.choice([257, 300, 1000])]))
         if opts.allow_empty_sensitive:
             A((2, ['first']))
         A((2, ['duc', None]))
@@ -143,7 +144,7 @@ def candidates(rng, t, opts, st, depth):
             A((1, ['progress', rng.randint(1, 3), rng.random() < 0.3]))
         if not no_completion:
             A((2, ['to_list']))
-            A((2, ['batch', rng.randint(1, 4)]))
+            A((2, ['batch', rng.randint(1, 4) if not opts.scale else rng.choice([257, 300, 1024])]))
             if opts.allow_empty_sensitive:
                 A((2, ['last']))
         if not opts.dual_only:
@@ -151,7 +152,7 @@ def candidates(rng, t, opts, st, depth):
                 A((2, ['distinct', None]))
             if t == 'i':
                 A((1, ['distinct', 'mod:%d' % _k(rng)]))
-            A((2, ['lag', rng.randint(1, 3)]))
+            A((2, ['lag', rng.randint(1, 3) if not opts.scale else rng.choice([257, 300])]))
             A((1, ['pad_start', rng.randint(0, 2), rng.choice([None, 77]) if t == 'i' else None]))
             if t == 'i':
                 A((1, ['start_with', [50, 51][:rng.randint(1, 2)]]))
@@ -193,13 +194,17 @@ def gen_context(rng, cx, t, opts, st, depth):
     from .progs import pipeline_type
     inner_st = State(in_tee=st.in_tee, after_take=st.after_take, tainted=False, no_multislot=st.no_multislot)
     inner, _ = gen_pipeline(rng, t, rng.randint(1, 3), opts, inner_st, depth - 1)
-    if cx == 'group_by':
+    if cx == 'group_by' and opts.scale and t == 'i':
+        node = ['group_by', rng.choice(['mod:300', 'kt:300', 'mod:1000']), inner]
+    elif cx == 'group_by':
         key = rng.choice(['mod:%d', 'kt:%d', 'ks:%d', 'kbig:%d', 'kf:%d', 'kmix:%d', 'kneg:%d', 'kmers:%d']) % _k(rng) if t == 'i' else 'kdig:%d' % _k(rng)
         node = ['group_by', key, inner]
     elif cx == 'roll':
         w, s = rng.randint(1, 4), rng.randint(1, 4)
+        if opts.scale:
+            w, s = rng.choice([(300, 100), (257, 256), (260, 130), (400, 399), (300, 300), (100, 400)])
         if opts.model_safe and (st.no_multislot or st.in_tee) and w > s:
-            s = w if rng.random() < 0.5 else rng.randint(w, 4)
+            s = w if (rng.random() < 0.5 or w >= 4) else rng.randint(w, 4)
         node = ['roll', w, s, inner]
         if w > s:
             st.tainted = True
